@@ -63,9 +63,11 @@ def run(ctx):
             ctx.violation("hal generator picked a digit width outside the documented magnitude domain", {"cases": domain["outside"][:10]}, False)
         ctx.assumptions[:] = [a for a in ctx.assumptions if not a.startswith("FFT64 rounding error")] + [
             "FFT64: rounding error < 1/2 inside the documented magnitude domain is tied by correspondence only (IEEE-754 code, not proved)",
-            "NTT120: the butterfly network (ntt_ref / intt_ref) is a ring isomorphism Z_q[X]/(X^n+1) -> Z_q^n with inverse — hypothesis "
-            "`Ntt120.NttIsRingIso` of the pipeline theorems, tied by correspondence only; everything around it (residues, CRT, lazy "
-            "accumulation, reductions) is proved",
+            "NTT120: proved end to end at HAL level for the reference kernels (transforms, prepare, bbc products, lazy add/sub/negate, "
+            "idft + CRT, cnv / vmp / dft_apply against the exact-integer specification); NTT120Avx: every lane kernel proved equal to the "
+            "reference on every reachable state, except pairwise_pack_left_1blk_x2_avx2 (C10 proves it for x < Q·2^33 only) and the "
+            "`u64`-ness of the table entries (`fitsTable`), which stay tied by correspondence; the x2-block index maps of the AVX2 "
+            "loops are tied by correspondence",
         ]
         return finish(level=level, rule=(rule + " || " + ntt120gen.RULE) if rule else ntt120gen.RULE, extra=extra)
 
